@@ -1,5 +1,7 @@
 SPECIFICATION TSpec
-CONSTANT CfgSet <- AnyCfg
+CONSTANTS
+  LegacyPlan = FALSE
+  CfgSet <- AnyCfg
 INVARIANT TraceInv
 CONSTRAINT Track
 POSTCONDITION Post
